@@ -11,7 +11,7 @@
    k = 0 is a zero-length read.
 
    The reader's buffer is [pending] (= buf[r:w]); r, w themselves are not
-   observable.  Every Read call is logged with len(p). *)
+   observable.  Every Read call is logged with len(p) and its result count. *)
 From PP Require Import Base.Bytes Base.GoResult.
 From Coq Require Import String.
 
@@ -19,7 +19,10 @@ Inductive io_err := EOF | Fail (code : N) | NoProgress.
 
 Record source := mkSource { rest : bytes; sched : list (nat * bool); final : io_err }.
 
-Inductive event := EvRead (len_p : nat) | EvWrite (data : bytes).
+(* EvRead: a Read call with len(p) and the count it returned; EvLine: a line
+   handed to the scanner (ghost event: not observable in Go, it marks the
+   position in the trace); EvWrite: a Write to the prefix writer. *)
+Inductive event := EvRead (len_p n : nat) | EvLine (data : bytes) | EvWrite (data : bytes).
 
 (* io.Reader.Read(p) with len(p) = lp *)
 Definition src_read (src : source) (lp : nat) : bytes * option io_err * source :=
@@ -52,7 +55,7 @@ Fixpoint fill_try (i : nat) (pend : bytes) (src : source) (evs : list event)
       let lp := buf_cap - List.length pend in
       let '(data, e, src') := src_read src lp in
       let pend' := pend ++ data in
-      let evs' := evs ++ [EvRead lp] in
+      let evs' := evs ++ [EvRead lp (List.length data)] in
       match e with
       | Some err => (mkReader pend' (Some err), src', evs')
       | None =>
